@@ -26,7 +26,7 @@ Fixpoint ms_subb {A} (leb:A->A->bool) (l1 l2:list A) : bool :=
 
 Definition key_eqb (a b:vresult) : bool :=
   term_eqb (rfocus a) (rfocus b) && opt_term_eqb (rvalue a) (rvalue b) && opt_term_eqb (rpath a) (rpath b) && N.eqb (rcomp a) (rcomp b)
-  && term_eqb (rsrc a) (rsrc b) && term_eqb (rsev a) (rsev b).
+  && term_eqb (rsrc a) (rsrc b) && term_eqb (rsev a) (rsev b) && tset_eqb (rmsgs a) (rmsgs b).
 
 (* fuel bounds the sh:detail nesting depth (never more than max_validation_depth) *)
 Fixpoint vr_eqb (n:nat) (a b:vresult) : bool :=
